@@ -201,15 +201,20 @@ def rule_c(ctx):
     rep = ctx.report
     c, f = _receive(ctx)
     buf_attr = ctx.cache.get('parser_buf') or '_buffer'
-    paths = ctx.paths(f, c, args={'header_length': const(3)}, no_inline={'parse_or_ignore'}, stable_attrs=True)
+    paths = ctx.paths(f, c, args={'header_length': const(3)}, no_inline={'parse_or_ignore'}, stable_attrs=True,
+                      inline_depth=3)
     ok = True
     detail = ''
     n = 0
     for p in paths:
+        first = True
         for e in p.events:
-            vt = e.data['value'].term if e.kind == 'store' else None
-            if e.kind == 'store' and e.data['target'][0] == 'local' and vt[0] in ('item', 'unpack') and \
-                    isinstance(vt[1], tuple) and vt[1] and vt[1][0] == 'call' and 'unpack' in str(vt[1][1]):
+            vt = strip_epoch(e.data['value'].term) if e.kind == 'store' else None
+            # the length: the first local of receive_data itself whose value is decoded from bytes (directly or
+            # through the unpack helpers, which are inlined); later locals are computed from it
+            if e.kind == 'store' and e.data['target'][0] == 'local' and e.func is f and isinstance(vt, tuple) and \
+                    'unpack' in repr(vt) and vt[0] in ('item', 'unpack', 'op') and first:
+                first = False
                 n += 1
                 atoms = Atoms()
 
@@ -223,6 +228,10 @@ def rule_c(ctx):
                     continue
                 if r is None or r.kind != 'int':
                     ok, detail = False, 'the frame length is not an integer read from the buffer'
+                elif r.nbytes > 3:
+                    ok, detail = False, ('the frame length is decoded from %d bytes of the buffer, but the loop only '
+                                         'guarantees the 3 prefix bytes: a read that ends right after a length prefix '
+                                         'makes the decoder raise' % r.nbytes)
                 elif r.pos != Lin.k(0) or r.nbytes != 3 or r.value_bits() != 24:
                     ok, detail = False, 'the frame length is read as %d bytes / %s bits at %r, expected the first 3 ' \
                                         'bytes' % (r.nbytes, r.value_bits(), r.pos)
